@@ -474,6 +474,10 @@ def handle (line : String) : String :=
       some (match prepare (← parseParams p) (← parseNats pp ".") (← parseNats ww ".") with
         | .ok (ps, kp) => s!"ok {showParams ps} {showKwopos kp}"
         | .error e => "err " ++ showErr e)
+    | "retrievebound" :: rest => do
+      -- signatures.signature of a bound method whose function carries the given stored signature
+      let (s, rest) ← parseSig rest
+      if rest ≠ [] then none else some ("ok " ++ showSig (retrieveBound s))
     | "preparesig" :: pp :: ww :: f :: self :: rest => do
       -- the signature a modifier's wrapper object (callable `self`) advertises for function `f`, provenance included
       let (s, rest) ← parseSig rest
